@@ -13,7 +13,7 @@ use crate::impl_::stream_sink::StreamSink;
 
 use parking_lot::Mutex;
 use parking_lot::RwLock;
-use std::sync::atomic::Ordering;
+use std::sync::atomic::{AtomicBool, Ordering};
 use std::sync::Arc;
 use std::sync::Weak;
 
@@ -484,10 +484,16 @@ impl<A: Send + 'static> Stream<A> {
         self.sodium_ctx().transaction(|| {
             let self_ = self.clone();
             let f_deps = lambda1_deps(&k);
+            let alive = Arc::new(AtomicBool::new(true));
+            let alive2 = alive.clone();
             let node = Node::new(
                 &self.sodium_ctx(),
                 NodeName::STREAM_LISTEN,
                 move || {
+                    // unlistened, possibly by another handler of this very transaction
+                    if !alive2.load(Ordering::SeqCst) {
+                        return;
+                    }
                     self_.with_data(|data: &mut StreamData<A>| {
                         for firing in &data.firing_op {
                             k.call(firing)
@@ -498,7 +504,7 @@ impl<A: Send + 'static> Stream<A> {
             );
             node.add_update_dependencies(vec![self.to_dep()]);
             node.add_update_dependencies(f_deps);
-            Listener::new(&self.sodium_ctx(), weak, node)
+            Listener::new(&self.sodium_ctx(), weak, node, alive)
         })
     }
 
